@@ -14,10 +14,50 @@ except Exception:
     sys.exit(2)
 rc = 0
 confirmed, unconfirmed = [], []
+_REL = []
+
+
+def release_symx():
+    """Build (once, only when a counterexample has to be confirmed) the release profile of symx."""
+    if not _REL:
+        if os.environ.get("SYMX_BIN_RELEASE"):
+            _REL.append(os.environ["SYMX_BIN_RELEASE"])
+        else:
+            b = subprocess.run(["cargo", "build", "--release", "--offline"], cwd=f"{ROOT}/symx", capture_output=True, text=True)
+            _REL.append(f"{ROOT}/symx/target/release/symx" if b.returncode == 0 else None)
+    return _REL[0]
+
+
 for v in d["violations"]:
     s = v.get("small")
     if not s:
         unconfirmed.append(v)
+        continue
+    if v["lemma"].startswith("L5"):
+        # a lemma about the interpreter's move/scan ops: rebuild the geometry and run the real
+        # interpreter on [Mov/Scan; store at min; store at max] against the unbounded-tape reading,
+        # block flush against a guard page.  The release build is used: a debug build re-enters
+        # the ops (and re-establishes the window) before every instruction.
+        ex = s.get("extra", [])
+        if len(ex) < 2:
+            unconfirmed.append(v)
+            continue
+        op = v["lemma"].split()[1].rstrip(":")
+        case = {"kind": "probe", "engine": "bcint", "property": prop, "width": 8 * s["cell_bytes"], "shift": s["b"], "min": ex[0], "max": ex[1], "size": s["size"], "k": s["a"], "lemma": v["lemma"]}
+        if op.startswith("scan") and len(ex) >= 3:
+            case["scan_cond"] = ex[2]
+        rel = release_symx()
+        os.makedirs(f"{ROOT}/replays", exist_ok=True)
+        cpath = f"{ROOT}/replays/{prop}-ops-{len(confirmed) + len(unconfirmed)}.json"
+        json.dump(case, open(cpath, "w"), indent=1)
+        r = subprocess.run([rel, "replay", cpath], capture_output=True, text=True) if rel else None
+        if r is not None and (r.returncode in (1, 77, 101) or r.returncode < 0):
+            msg = next((l for l in r.stdout.splitlines() if l.startswith("REPRODUCED")), "native run of the interpreter died (exit %d): access outside the owned block" % r.returncode)
+            s2 = dict(s)
+            s2["replay_file"] = cpath
+            confirmed.append((v, s2, msg))
+        else:
+            unconfirmed.append(v)
         continue
     r = subprocess.run([symx, "memreplay", str(s["cell_bytes"]), str(s["size"]), str(s["offset"]), str(s["a"]), str(s["b"])], capture_output=True, text=True)
     if r.returncode == 1:
@@ -31,6 +71,11 @@ for v, s, msg in confirmed:
     if key in seen or len(seen) >= 10:
         continue
     seen.add(key)
+    if s.get("replay_file"):
+        print(f"VIOLATION property={prop} replay={s['replay_file']}")
+        print(f"  interpreter op lemma `{v['lemma']}` ({s['cell_bytes']}-byte cells): {msg}")
+        rc = 1
+        continue
     path = f"{ROOT}/replays/{prop}-geometry-{len(seen)}.json"
     json.dump({"kind": "memreplay", "property": prop, "lemma": v["lemma"], **s,
                "replay": f"symx memreplay {s['cell_bytes']} {s['size']} {s['offset']} {s['a']} {s['b']}", "native": msg}, open(path, "w"), indent=1)
@@ -52,10 +97,13 @@ summary = {
     "solver_seconds": round(sum(l["seconds"] for l in d["lemmas"]), 1),
     "functions_encoded": d["functions_encoded"], "mir_basic_blocks": d.get("mir_blocks"), "paths_per_cell_size": d.get("paths"),
     "lemma_families": dict(by),
-    "preconditions": "size*w < 2^60 and the block [buffer, buffer+size*w) does not wrap and is w-aligned; the logical pointer is within +-2^58 cells of the block; requested range / index within +-2^40; allocator contract: non-null (failure is C17), aligned, non-wrapping block",
+    "preconditions": "L5: min_accessed <= 0 <= max_accessed within +-2^40, shift within +-2^40 with the sign the op is selected for, scan condition offset inside the window (C11); size*w < 2^60 and the block [buffer, buffer+size*w) does not wrap and is w-aligned; the logical pointer is within +-2^58 cells of the block; requested range / index within +-2^40; allocator contract: non-null (failure is C17), aligned, non-wrapping block",
     "lemmas": ["L1a no overflow / divide-by-zero assert of make_accessible is reachable",
                "L1 after make_accessible(s,e) both ends of the requested range are accessible; a reallocation copies exactly the old block to new_buffer + added_below with added_below + size <= new_size; offset' = offset + added_below; without reallocation the state is unchanged",
-               "L4 check(i) and check_ptr(current_ptr()+k) hold exactly for cells inside the block; set_current_ptr(current_ptr()+k) moves the logical pointer by k"],
+               "L4 check(i) and check_ptr(current_ptr()+k) hold exactly for cells inside the block; set_current_ptr(current_ptr()+k) moves the logical pointer by k",
+               "L5 the bytecode interpreter's movl/movr/scanl/scanr (checked instantiation, with checkl/checkr and the Memory methods inlined from their MIR): from a state where the whole access window [min_accessed, max_accessed] around the pointer is inside the block, after the move (or after one iteration of the scan loop, cut at the loop head) the whole window around the new pointer is inside the - possibly reallocated - block, the new pointer denotes the moved logical cell (same distance from the copied old block), every cell the scan condition reads is inside the block owned at that moment, no overflow assert is reachable, and the next instruction is at ip + 2 / ip + 3; one feasible path with and one without reallocation is exhibited per op and cell size (vacuity witnesses)"],
+    "vacuity_witnesses": {"queries": len(d.get("vacuity_witnesses", [])), "satisfiable": sum(1 for w in d.get("vacuity_witnesses", []) if w.get("answer") == "sat")},
+    "interpreter_op_paths": d.get("ops_paths"),
     "cell_sizes": [1, 2, 4, 8], "wall_s": d["wall_s"],
     "confirmed_natively": len(confirmed), "not_replayable": len(unconfirmed),
     "samples": d["lemmas"][:3],
